@@ -115,7 +115,7 @@ def register(M):
 
     def b_is_int(args, kw, st, node):
         v = args[0]
-        return is_int(v) or is_bool(v)
+        return (is_int(v) or is_bool(v)) and not isinstance(v, IvVal)
     B['is_int'] = b_is_int
 
     def b_distinct(args, kw, st, node):
@@ -419,6 +419,8 @@ def register(M):
         ex.use('DEF:prefix_round(n, ratios, i) = sum of round(n x ratio_j) over j < i (recursive definition)')
         return f(n, i)
     B['prefix_round'] = b_prefix_round
+
+    B['is_list'] = lambda args, kw, st, node: isinstance(st.deref(args[0]), SList)
 
     def b_is_ndarray(args, kw, st, node):
         return isinstance(st.deref(args[0]), SArr)
